@@ -220,6 +220,18 @@ impl Thread {
     }
 }
 
+impl Drop for Thread {
+    fn drop(&mut self) {
+        // When an iteration panics, the thread-locals of threads that did not
+        // finish are still alive while the execution is dropped, outside of the
+        // model. Their destructors may need the execution (e.g. a value owning
+        // a loom `Arc`) and would panic again, aborting the process. Leak them.
+        if std::thread::panicking() {
+            std::mem::forget(std::mem::take(&mut self.locals));
+        }
+    }
+}
+
 impl fmt::Debug for Thread {
     // Manual debug impl is necessary because thread locals are represented as
     // `dyn Any`, which does not implement `Debug`.
